@@ -998,6 +998,7 @@ class Executor(object):
             self.exec_block(s.orelse, st)
             return
         self.assume(st, cterm)
+        self.iter_start = st.copy()
         if kind == 'for':
             elem = seq_elem_sv(self, st, itv, seq, i)
             self.assign(s.target, elem, st)
